@@ -11,6 +11,8 @@ Driver for C12.  Request lines (tokens separated by blanks):
   decomp <R> <M>                  reply  ok <group>*   group = rows|cols (comma separated, `-` for none), sorted by first column
   decompchk <R> <M>               reply  1 iff the verified checker accepts the MODEL's (p, q, blocks)
   chkdecomp <R> <M> <m p…> <n q…> <nb> <block>*   reply 1 iff the verified checker accepts the given (real) output
+  decompconn <R> <M>              reply  1 iff every block of the MODEL's decomposition passes the verified connectivity check
+  chkconn <R> <nb> <block>*       reply  1 iff every given (real) block passes it
   uf <n> <op>*                    ops  u:i:j  s:i:j  g     reply: one token per s/g op
 
 <R> ∈ Z | Q | F5 | G.   A matrix is  m n k (i j v)^k  — the k stored entries in CSC order, stored zeros included.
@@ -156,6 +158,18 @@ def handleR (cmd : String) (ts : List String) : String :=
       some (match dirSumDecomp M with
         | .ok o => if checkDecomp M o.p o.q o.blocks then "1" else "0"
         | .panic => "panic" | .err => "err")).getD "bad-request"
+  | "decompconn", ts => (do
+      -- every block of the model's own decomposition passes the verified connectivity check
+      let (M, ts) ← parseMat io ts
+      if !ts.isEmpty then none else
+      some (match dirSumDecomp M with
+        | .ok o => if o.blocks.all connectedBlk then "1" else "0"
+        | .panic => "panic" | .err => "err")).getD "bad-request"
+  | "chkconn", nb :: ts => (do
+      -- the REAL blocks judged by the verified connectivity check
+      let nb ← parseNat? nb
+      let (bl, ts) ← parseMats io nb ts
+      if !ts.isEmpty then none else some (if bl.all connectedBlk then "1" else "0")).getD "bad-request"
   | "chkdecomp", ts => (do
       -- the REAL output (p, q, blocks) of `dir_sum_decomp`, judged by the verified checker
       let (M, ts) ← parseMat io ts
